@@ -425,7 +425,8 @@ bloc::Value * FilePlugin::executeMethod(
     if (l > 0)
     {
       bloc::Integer n = l;
-      str->reserve(n);
+      /* the requested size is a maximum, do not allocate it ahead */
+      str->reserve(n > BLOC_FILE_BUFSZ ? BLOC_FILE_BUFSZ : n);
       char buf[BLOC_FILE_BUFSZ];
       while (n > 0)
       {
@@ -544,7 +545,8 @@ bloc::Value * FilePlugin::executeMethod(
     if (l > 0)
     {
       bloc::Integer n = l;
-      raw->reserve(n);
+      /* the requested size is a maximum, do not allocate it ahead */
+      raw->reserve(n > BLOC_FILE_BUFSZ ? BLOC_FILE_BUFSZ : n);
       char buf[BLOC_FILE_BUFSZ];
       while (n > 0)
       {
